@@ -1060,8 +1060,9 @@ def saveframe(filename=None, frames=None, variables=None, exclude_variables=None
         # user is currently at in the debugger.
         if interactive_session_obj and hasattr(interactive_session_obj, 'curframe'):
             current_frame = interactive_session_obj.curframe
-            frames = (f"{current_frame.f_code.co_filename}:{current_frame.f_lineno}:"
-                      f"{_get_qualname(current_frame)}")
+            # The filename part of a frame is a regex; match this file literally.
+            frames = (f"{re.escape(current_frame.f_code.co_filename)}:"
+                      f"{current_frame.f_lineno}:{_get_qualname(current_frame)}")
 
     _SAVEFRAME_LOGGER.info("Validating arguments passed.")
     filename, frames, variables, exclude_variables = _validate_saveframe_arguments(
